@@ -284,11 +284,11 @@ type Case struct {
 type Result struct {
 	Fail     string   `json:"fail,omitempty"` // failure kind (last segment of the signature)
 	Msg      string   `json:"msg,omitempty"`
-	Statuses []int    `json:"statuses"`      // per attack step that expects an answer: status, 0 = none
-	ClosedAt int      `json:"closed_at"`     // index of the step after which the server had closed a hostile connection (-1: not during the attack)
-	Sent     int      `json:"steps_sent"`    // steps written
-	Sessions int      `json:"sessions"`      // sessions opened by anybody
-	Alive    bool     `json:"alive_at_end"`  // a hostile connection was still open when the attack bytes were out
+	Statuses []int    `json:"statuses"`     // per attack step that expects an answer: status, 0 = none
+	ClosedAt int      `json:"closed_at"`    // index of the step after which the server had closed a hostile connection (-1: not during the attack)
+	Sent     int      `json:"steps_sent"`   // steps written
+	Sessions int      `json:"sessions"`     // sessions opened by anybody
+	Alive    bool     `json:"alive_at_end"` // a hostile connection was still open when the attack bytes were out
 	Events   []string `json:"events,omitempty"`
 	Skipped  bool     `json:"skipped,omitempty"`
 }
@@ -565,6 +565,12 @@ func execute(cs Case) (res Result) {
 	full := cs.Cfg.Handlers == "all"
 
 	// ---- the attack, step by step; the second connection advances one stage after every attack step
+	plaintext := false
+	for _, d := range cs.Devs {
+		if d.Op == "no-tls" {
+			plaintext = true
+		}
+	}
 	conns := map[int]*rawConn{}
 	conn := func(i int) *rawConn {
 		if c, ok := conns[i]; ok {
@@ -591,12 +597,6 @@ func execute(cs Case) (res Result) {
 		}
 		return dummySID
 	}
-	plaintext := false
-	for _, d := range cs.Devs {
-		if d.Op == "no-tls" {
-			plaintext = true
-		}
-	}
 	offset := 0 // bytes of the stream written so far
 	stop := false
 	var pending []byte
@@ -619,6 +619,13 @@ func execute(cs Case) (res Result) {
 			res.Sent++
 			if !settle() {
 				return failf("hang", "library not quiescent after closing connection %d at step %d", st.Conn, i)
+			}
+			continue
+		}
+		// nothing more can be said on a connection that has ended
+		if c, ok := conns[st.Conn]; ok && (c.eof || c.closed) && len(pending) == 0 {
+			if st.Expect != "" {
+				res.Statuses = append(res.Statuses, -1)
 			}
 			continue
 		}
@@ -661,12 +668,6 @@ func execute(cs Case) (res Result) {
 		for _, k := range sortedKeys(conns) {
 			if conns[k].eof && res.ClosedAt < 0 {
 				res.ClosedAt = i
-			}
-		}
-		// a server that closed the connection the next step would be written on ends the attack
-		if i+1 < len(steps) && steps[i+1].Kind != "udp" {
-			if nc, ok := conns[steps[i+1].Conn]; ok && nc.eof {
-				stop = true
 			}
 		}
 		if second != nil && !second.ready() {
